@@ -334,16 +334,20 @@ prop("C17", "c17",
      "equal its behaviour after all other variants (and those of another mechanism) were created in a generated load order and "
      "executed twice in a generated order. Schedules: prototype and all variants of all mechanisms are executed from 12 "
      "goroutines under -race from the very first execution; a data race report or a behaviour that differs from the object's "
-     "first observed behaviour is a violation. Every generated case is non-trivial (>= 2 variants); distinct by (mechanism, "
-     "target, load order, execution order).",
+     "first observed behaviour is a violation. Differential (overlay exactness): a rule naming a mechanism with overrides must "
+     "behave like a rule naming, without overrides, a catalogue entry configured with the overlaid configuration (reference overlay: "
+     "a named option replaces the catalogue's, values and assertions are overlaid member by member), for every override of the table "
+     "and generated values overrides (more, fewer, redefined names). Every generated case is non-trivial (>= 2 variants); distinct by "
+     "(mechanism, target, load order, execution order).",
      [dict(run="^TestVariantsAreIndependentOfEachOther$", quick=900, thorough=6250, shards_thorough=10),
       dict(run="^TestExecutionDoesNotChangeMechanisms$", quick=900, thorough=2500, shards_thorough=4),
+      dict(run="^TestVariantsObserveTheCatalogueOverlaidWithTheirOverrides$", quick=900, thorough=6000, shards_thorough=4),
       dict(run="^TestConcurrentExecutionIsRaceFree$", quick=1, thorough=1, shards_thorough=2, race=True)],
      ["the remote side is a deterministic function of what it receives", "mechanism caches are off (no cache in the request context) so executions do not influence each other through the cache"],
      level="Randomised generated search over creation/execution orders with a metamorphic oracle, plus a race-detector stress "
            "over all mechanism types; bounded exploration.",
      note="Trusted: the race detector; the scripted remote side.",
-     technique="property-based testing: metamorphic order-independence + -race stress")
+     technique="property-based testing: metamorphic order-independence, differential overlay reference, structural snapshot + -race stress")
 
 prop("C18", "c18",
      "State machines per provider, in lock step with a reference model (source -> latest valid content; empty / missing / "
